@@ -56,6 +56,14 @@ def key_term(kty, k: SV):
         except Exception:
             pass
         return None
+    if isinstance(k, SClosure) and k.kind == "emptyset" and isinstance(kty, tuple) and kty[0] == "set":
+        return z3.K(S.sort_of(kty[1]), z3.BoolVal(False))       # frozenset() / set() as a key
+    if isinstance(k, SSetV):                       # a frozenset as key / element
+        try:
+            if S.sort_of(("set", k.elem)) == S.sort_of(kty): return k.mem
+        except Exception:
+            pass
+        return None
     if isinstance(k, SSeq):
         try:
             if S.sort_of(("seq", k.elem)) == S.sort_of(kty): return k.packed()
@@ -341,4 +349,19 @@ def card(mem):
         _card[key] = z3.Function(f"card<{key}>", srt, z3.IntSort())
     c = _card[key](mem)
     x = z3.Const("x!card", srt.domain())
-    return c, [c >= 0, (c == 0) == z3.Not(z3.Exists([x], mem[x]))]
+    facts = [c >= 0, (c == 0) == z3.Not(z3.Exists([x], mem[x]))]
+    # finite sets: a subset that is at least as large as its superset is the whole set (instances for the pairs of
+    # sets whose sizes have been taken so far)
+    seen = _card_seen.setdefault(key, [])
+    for other in seen:
+        if z3.eq(other, mem): continue
+        co = _card[key](other)
+        for a, ca, b, cb in ((mem, c, other, co), (other, co, mem, c)):
+            facts.append(z3.Implies(z3.And(z3.ForAll([x], z3.Implies(a[x], b[x])), ca >= cb),
+                                    z3.ForAll([x], z3.Implies(b[x], a[x]))))
+    if all(not z3.eq(o, mem) for o in seen) and len(seen) < 6:
+        seen.append(mem)
+    return c, facts
+
+
+_card_seen = {}
